@@ -31,7 +31,9 @@ type Models struct {
 	reach map[*ssa.Function]map[*ssa.Function]bool
 }
 
-func newModels(p *Prog) *Models { return &Models{p: p, reach: map[*ssa.Function]map[*ssa.Function]bool{}} }
+func newModels(p *Prog) *Models {
+	return &Models{p: p, reach: map[*ssa.Function]map[*ssa.Function]bool{}}
+}
 
 // globalInit returns the initialiser expression of a package-level variable.
 func (p *Prog) globalInit(name string) ast.Expr {
